@@ -28,6 +28,11 @@ fn main() {
         std::process::exit(2);
     }
     let prop = args[1].clone();
+    if prop == "C13-child" {
+        // hidden sub-command: one Yen case in a resource-limited child process (see c13.rs)
+        c13::child_main(&args[2..]);
+        return;
+    }
     let mut seed: u64 = 20260926;
     let mut tier = Tier::Quick;
     let mut out = String::from("work/tmp");
